@@ -245,4 +245,117 @@ theorem sum_conj_omega_pow (N m : ℕ) (hN : N ≠ 0) (hm : m < N) :
   · have : ¬ N ∣ m := fun hd => by have := Nat.le_of_dvd (by omega) hd; omega
     simp [h0, this]
 
+/-! ### the Fourier marginal of a row -/
+
+/-- summing the row of harmonic `k = N/2 − r` over time gives `conj X[k]` -/
+theorem row_marginal (x : List ℂ) (h : 2 ≤ x.length) (r : ℕ) (hr : r < x.length / 2) :
+    ∑ j ∈ range (2 * (x.length / 2)),
+        (idft twC (prodRow Real.exp Real.pi (dft twC x (2 * (x.length / 2))) (x.length / 2)
+          (x.length / 2 - r)) (2 * (x.length / 2))).getD j 0
+      = starRingEnd ℂ ((dft twC x (2 * (x.length / 2))).getD (x.length / 2 - r) 0) := by
+  have hN : 2 * (x.length / 2) ≠ 0 := by omega
+  have hNc : ((2 * (x.length / 2) : ℕ) : ℂ) ≠ 0 := by exact_mod_cast hN
+  set P := prodRow Real.exp Real.pi (dft twC x (2 * (x.length / 2))) (x.length / 2) (x.length / 2 - r)
+    with hP
+  have h1 : ∀ j ∈ range (2 * (x.length / 2)), (idft twC P (2 * (x.length / 2))).getD j 0
+      = (∑ m ∈ range (2 * (x.length / 2)), P.getD m 0 * starRingEnd ℂ (omega (2 * (x.length / 2)) ^ (j * m)))
+        / (2 * (x.length / 2) : ℕ) := fun j hj => idftC_getD P _ j (Finset.mem_range.mp hj)
+  rw [Finset.sum_congr rfl h1, ← Finset.sum_div, Finset.sum_comm]
+  have h2 : ∀ m ∈ range (2 * (x.length / 2)),
+      ∑ j ∈ range (2 * (x.length / 2)), P.getD m 0 * starRingEnd ℂ (omega (2 * (x.length / 2)) ^ (j * m))
+        = if m = 0 then P.getD 0 0 * (2 * (x.length / 2) : ℕ) else 0 := by
+    intro m hm
+    rw [← Finset.mul_sum, sum_conj_omega_pow _ m hN (Finset.mem_range.mp hm)]
+    split
+    · subst ‹m = 0›; rfl
+    · simp
+  rw [Finset.sum_congr rfl h2, Finset.sum_ite_eq' (range (2 * (x.length / 2))) 0]
+  simp only [Finset.mem_range, Nat.pos_of_ne_zero hN, if_true]
+  rw [mul_div_assoc, div_self hNc, mul_one, hP, prodRow_getD _ _ _ _ _ _ (Nat.pos_of_ne_zero hN),
+    gaussEntry_zero]
+  simp [shiftEntry]
+
+
+/-! ### re-indexing `m ↦ −m mod N` (textbook form of the S-transform) -/
+
+/-- the residue `−m mod N` -/
+def negMod (N m : ℕ) : ℕ := (N - m) % N
+
+theorem negMod_lt (N m : ℕ) (hN : 0 < N) : negMod N m < N := Nat.mod_lt _ hN
+
+theorem negMod_zero (N : ℕ) : negMod N 0 = 0 := by simp [negMod]
+
+theorem negMod_pos (N m : ℕ) (h0 : 0 < m) (hm : m < N) : negMod N m = N - m := by
+  unfold negMod; exact Nat.mod_eq_of_lt (by omega)
+
+theorem negMod_negMod (N m : ℕ) (hm : m < N) : negMod N (negMod N m) = m := by
+  rcases Nat.eq_zero_or_pos m with h0 | h0
+  · subst h0; simp [negMod]
+  · rw [negMod_pos N m h0 hm, negMod_pos N (N - m) (by omega) (by omega)]; omega
+
+/-- re-indexing a sum over the residues by `m ↦ −m mod N` -/
+theorem sum_range_negMod (N : ℕ) (f : ℕ → ℂ) :
+    ∑ m ∈ range N, f m = ∑ m ∈ range N, f (negMod N m) := by
+  apply Finset.sum_nbij' (fun m => negMod N m) (fun m => negMod N m)
+  · intro m hm
+    exact Finset.mem_range.mpr (negMod_lt N m (by have := Finset.mem_range.mp hm; omega))
+  · intro m hm
+    exact Finset.mem_range.mpr (negMod_lt N m (by have := Finset.mem_range.mp hm; omega))
+  · intro m hm; exact negMod_negMod N m (Finset.mem_range.mp hm)
+  · intro m hm; exact negMod_negMod N m (Finset.mem_range.mp hm)
+  · intro m hm
+    show f m = f (negMod N (negMod N m))
+    rw [negMod_negMod N m (Finset.mem_range.mp hm)]
+
+theorem mod_of_ge_lt (a N : ℕ) (h1 : N ≤ a) (h2 : a < 2 * N) : a % N = a - N := by
+  rw [Nat.mod_eq_sub_mod h1, Nat.mod_eq_of_lt (by omega)]
+
+/-- `−(m + k) ≡ (−m) − k (mod N)` in the indexing of the code -/
+theorem negMod_add (N m k : ℕ) (hm : m < N) (hk0 : 0 < k) (hk : k < N) :
+    negMod N ((m + k) % N) = (negMod N m + N - k) % N := by
+  rcases Nat.eq_zero_or_pos m with h0 | h0
+  · subst h0
+    rw [negMod_zero, Nat.zero_add, Nat.zero_add, Nat.mod_eq_of_lt hk, negMod_pos N k hk0 hk,
+      Nat.mod_eq_of_lt (by omega)]
+  · rw [negMod_pos N m h0 hm]
+    rcases Nat.lt_trichotomy (m + k) N with h | h | h
+    · rw [Nat.mod_eq_of_lt h, negMod_pos N (m + k) (by omega) h,
+        mod_of_ge_lt (N - m + N - k) N (by omega) (by omega)]
+      omega
+    · rw [h, Nat.mod_self, negMod_zero, show N - m + N - k = N by omega, Nat.mod_self]
+    · rw [mod_of_ge_lt (m + k) N (by omega) (by omega), negMod_pos N (m + k - N) (by omega) (by omega),
+        Nat.mod_eq_of_lt (by omega)]
+      omega
+
+/-- Hermitian symmetry in residue form -/
+theorem dftC_conj_of_real_mod (x : List ℂ) (N n : ℕ) (hn : n < N)
+    (hx : ∀ j, starRingEnd ℂ (x.getD j 0) = x.getD j 0) :
+    starRingEnd ℂ ((dft twC x N).getD n 0) = (dft twC x N).getD (negMod N n) 0 := by
+  rcases Nat.eq_zero_or_pos n with h0 | h0
+  · subst h0; rw [negMod_zero, dftC_zero_real x N hn hx]
+  · rw [negMod_pos N n h0 hn, dftC_conj_of_real x N n h0 hn hx]
+
+theorem signedIdx_negMod_sq (P m : ℕ) (hP : 1 ≤ P) (hm : m < 2 * P) :
+    signedIdx P (negMod (2 * P) m) ^ 2 = signedIdx P m ^ 2 := by
+  rcases Nat.eq_zero_or_pos m with h0 | h0
+  · subst h0; rw [negMod_zero]
+  · rw [negMod_pos _ m h0 hm]
+    unfold signedIdx
+    rcases Nat.lt_trichotomy m P with h | h | h
+    · rw [if_neg (by omega), if_pos (by omega), Nat.cast_sub (by omega)]; ring
+    · subst h
+      rw [if_pos (by omega), if_pos (by omega), Nat.cast_sub (by omega)]; push_cast; ring
+    · rw [if_pos (by omega), if_neg (by omega), Nat.cast_sub (by omega)]; ring
+
+theorem conj_omega_pow_negMod (N j m : ℕ) (hm : m < N) :
+    starRingEnd ℂ (omega N ^ (j * negMod N m)) = omega N ^ (j * m) := by
+  have hN : N ≠ 0 := by omega
+  have h1 : omega N ^ (j * negMod N m) * omega N ^ (j * m) = 1 := by
+    rw [← pow_add, ← Nat.mul_add]
+    rcases Nat.eq_zero_or_pos m with h0 | h0
+    · subst h0; simp [negMod_zero]
+    · rw [negMod_pos N m h0 hm, Nat.sub_add_cancel (le_of_lt hm), Nat.mul_comm, pow_mul,
+        omega_pow_self N hN, one_pow]
+  rw [map_pow, conj_omega, inv_pow, eq_inv_of_mul_eq_one_left h1, inv_inv]
+
 end EqsigVerif.Model.Stockwell
